@@ -34,9 +34,12 @@ ASSUMPTIONS = []
 AUTO_MEDIAN_NOTE = "centring: median of the per-chromosome medians of the autosomal bins"
 
 
-def bins_for(naming, with_anti):
+def bins_for(naming, with_anti, no_x=False):
     pre = "chr" if naming == "chr" else ""
     t = [(pre + "1", 100, 300, "A"), (pre + "2", 100, 400, "B"), (pre + "X", 100, 300, "C"), (pre + "Y", 100, 300, "D")]
+    if no_x:
+        # a panel with chrY bins but no chrX bin (the naming style shows in the first row)
+        t = [t[0], t[1], t[3]]
     a = [(pre + "1", 1000, 9000, "Antitarget"), (pre + "X", 1000, 9000, "Antitarget")] if with_anti else []
     return t, a
 
@@ -53,11 +56,11 @@ class Spy:
         return self.ctx.real(f"{self.name}{len(self.calls)}", self.lo, None)
 
 
-def h_pool(ctx, sexes, hapx, naming, with_anti, mismatch=False, anti_lo=-10, reverse_targets=False):
+def h_pool(ctx, sexes, hapx, naming, with_anti, mismatch=False, anti_lo=-10, reverse_targets=False, no_x=False):
     """sexes: list of 'F'/'M' per sample.  anti_lo: lower end of the antitarget log2 range (below
     -15 a bin counts as null coverage: antitarget files are centred over all their autosomal bins,
     zero-coverage ones included -- 'each sample's log2 after median-centring')."""
-    tb, ab = bins_for(naming, with_anti)
+    tb, ab = bins_for(naming, with_anti, no_x)
     ns = len(sexes)
     tables, samp_logs = {}, []
     for k, sx in enumerate(sexes):
@@ -144,7 +147,7 @@ def h_pool(ctx, sexes, hapx, naming, with_anti, mismatch=False, anti_lo=-10, rev
     ctx.cover("reached")
 
 
-def h_infer(ctx, with_anti, empty_anti=False):
+def h_infer(ctx, with_anti, empty_anti=False, stated=None):
     """do_reference with the sexes left to be inferred.  The inference itself (guess_xx: scipy's
     median test) is replaced by a solver-chosen answer per file -- female, male, or no call --
     what is decided is the bookkeeping around it: every non-empty file is asked once, and each
@@ -183,12 +186,18 @@ def h_infer(ctx, with_anti, empty_anti=False):
     reference.combine_probes = fake_combine
     reference.warn_bad_bins = lambda *a, **k: None
     try:
-        reference.do_reference([f"s{k}.targetcoverage.cnn" for k in range(ns)], [f"s{k}.antitargetcoverage.cnn" for k in range(ns)] if with_anti else None, None, False, None, None, False, False, False)
+        reference.do_reference([f"s{k}.targetcoverage.cnn" for k in range(ns)], [f"s{k}.antitargetcoverage.cnn" for k in range(ns)] if with_anti else None, None, False, None, stated, False, False, False)
     except Exception as exc:
         claim_raised(ctx, "do_reference", exc)
         return
     finally:
         CNA.guess_xx, reference.read_cna, reference.combine_probes, reference.warn_bad_bins = real_guess, real_read, real_combine, real_warn
+    if stated is not None:
+        # the sex of the samples was given: nothing is inferred, every sample gets the stated sex
+        ctx.claim(asked == [], "a stated sample sex is not second-guessed (no inference)")
+        ctx.claim(got.get("sexes") == {f"s{k}": stated for k in range(ns)}, "every sample is handed on with the stated sex")
+        ctx.cover("reached")
+        return
     files = [(f"s{k}", "tgt") for k in range(ns)] + ([(f"s{k}", "anti") for k in range(ns) if not (empty_anti and k == 0)] if with_anti else [])
     ctx.claim(sorted(asked) == sorted(files), "every non-empty coverage file is asked for its sex exactly once")
     want = {}
@@ -203,6 +212,39 @@ def h_infer(ctx, with_anti, empty_anti=False):
     ctx.claim({k: v for k, v in got.get("sexes", {}).items() if v is not None} == want, "each sample's sex is the antitarget call where there is one, else the target call, else none")
     ctx.cover("antitarget call only", any(answers.get((f"s{k}", "tgt")) is None and answers.get((f"s{k}", "anti")) is not None for k in range(ns)))
     ctx.cover("calls disagree", any(answers.get((f"s{k}", "tgt")) is not None and answers.get((f"s{k}", "anti")) is not None and answers.get((f"s{k}", "tgt")) != answers.get((f"s{k}", "anti")) for k in range(ns)))
+    ctx.cover("reached")
+
+
+def h_depth_only_corrected(ctx, n_samples):
+    """Corrections on (edge correction: needs no FASTA): normals that differ only in sequencing depth
+    hand the estimators the same value in every bin -- whatever the rolling-median correction does,
+    it does the same to each of them (equal-sized isolated targets: tied edge covariate, so the
+    order among ties, i.e. the shuffle, matters)."""
+    tb = [("chr1", 1000, 1200, "A"), ("chr1", 5000, 5200, "B"), ("chr1", 9000, 9200, "C"), ("chr2", 1000, 1200, "D")]
+    base = [ctx.real(f"t{i}", -3, 3) for i in range(len(tb))]
+    shifts = [0] + [ctx.real(f"c{k}", -2, 2) for k in range(1, n_samples)]
+    tables = {}
+    for k in range(n_samples):
+        tables[f"s{k}.targetcoverage.cnn"] = make_cna({"chromosome": [b[0] for b in tb], "start": [b[1] for b in tb], "end": [b[2] for b in tb], "gene": [b[3] for b in tb], "log2": [x + shifts[k] for x in base], "depth": [10.0 + k] * len(tb)}, {"sample_id": f"s{k}"})
+    loc, var = Spy(ctx, "biloc", None), Spy(ctx, "bivar", 0)
+    loc.real, var.real = descriptives.biweight_location, descriptives.biweight_midvariance
+    orig_read = reference.read_cna
+    reference.read_cna = lambda fname, *a, **k: tables[fname].copy()
+    descriptives.biweight_location, descriptives.biweight_midvariance = loc, var
+    try:
+        reference.combine_probes([f"s{k}.targetcoverage.cnn" for k in range(n_samples)], None, None, False, None, {f"s{k}": True for k in range(n_samples)}, False, True, False, False, 4)
+    except Exception as exc:
+        claim_raised(ctx, "combine_probes", exc)
+        return
+    finally:
+        reference.read_cna = orig_read
+        descriptives.biweight_location, descriptives.biweight_midvariance = loc.real, var.real
+    ctx.claim(len(loc.calls) >= len(tb), "one location estimate per bin")
+    for j in range(min(len(tb), len(loc.calls))):
+        vals = loc.calls[j][0]
+        ctx.claim(len(vals) == n_samples + 1, "the estimators receive the pseudo-sample plus every sample")
+        for k in range(2, len(vals)):
+            ctx.claim(approx(vals[k], vals[1]), "normals that differ only in depth contribute the same value to every bin, corrections on")
     ctx.cover("reached")
 
 
@@ -332,6 +374,8 @@ def _pool_cfgs():
                     out.append(c)
     out.append({"sexes": ["F", "M"], "hapx": True, "naming": "chr", "with_anti": False, "mismatch": True})
     out.append({"sexes": ["F"], "hapx": False, "naming": "chr", "with_anti": True, "anti_lo": -25})
+    out.append({"sexes": ["M", "F"], "hapx": True, "naming": "chr", "with_anti": False, "no_x": True})
+    out.append({"sexes": ["F"], "hapx": False, "naming": "chr", "with_anti": True, "no_x": True})
     # the target files listed in another order than the antitarget files: each sample's columns still pair up
     out.append({"sexes": ["M", "F"], "hapx": False, "naming": "chr", "with_anti": True, "reverse_targets": True})
     out.append({"sexes": ["M", "F"], "hapx": True, "naming": "chr", "with_anti": True, "anti_lo": -25, "tier": "thorough"})
@@ -340,7 +384,8 @@ def _pool_cfgs():
 
 HARNESSES = [
     Harness("pooled", h_pool, _pool_cfgs(), covers=["reached", "mixed sexes", "rejected", "null-coverage antitarget bin"], wall_s=400, thorough_wall_s=1800),
-    Harness("inferred_sexes", h_infer, [{"with_anti": True}, {"with_anti": False}, {"with_anti": True, "empty_anti": True}], covers=["reached", "antitarget call only", "calls disagree"], wall_s=300),
+    Harness("inferred_sexes", h_infer, [{"with_anti": True}, {"with_anti": False}, {"with_anti": True, "empty_anti": True}, {"with_anti": True, "stated": False}, {"with_anti": False, "stated": True}], covers=["reached", "antitarget call only", "calls disagree"], wall_s=300),
+    Harness("depth_only_corrected", h_depth_only_corrected, [{"n_samples": 2}, {"n_samples": 3, "tier": "thorough"}], covers=["reached"], wall_s=400, thorough_wall_s=1500),
     Harness("consensus_outlier", h_consensus, [{"n": n, "side": sd} for n in (3, 4) for sd in ("low", "high")] + [{"n": n, "side": sd, "family": "depth_only"} for n in (3, 4) for sd in ("low", "high")], covers=["reached"], wall_s=300, query_timeout_ms=60000),
     Harness("gc_rmask", h_gc, [{"L": 0}, {"L": 1}, {"L": 3}, {"L": 4}, {"L": 6, "tier": "thorough"}], covers=["all ambiguous", "mixed case"], wall_s=200, thorough_wall_s=900),
     Harness("fasta_slice", h_slice, [{}], covers=["reached"]),
